@@ -91,8 +91,11 @@ def grammar_cases(tier, seed, work, stats, fams, pools):
     cases = []
     for nv, nt, maxp, maxb, k in fams:
         states = core.tlc_dump("CFGGen", gen_cfg(nv, nt, maxp, maxb), work, stats=stats,
-                               name="CFGGen-v%d-t%d-p%d-b%d" % (nv, nt, maxp, maxb))
-        states = sample(states, k, seed)
+                               name="CFGGen-v%d-t%d-p%d-b%d" % (nv, nt, maxp, maxb), keep=(k, seed) if k >= 8 else None)
+        if k < 8:
+            states = sample(states, k, seed)
+        else:
+            states.sort(key=lambda st: tlaparse.to_tla(st["prods"]))
         for i, st in enumerate(states):
             prods = sorted(tlaparse.to_json(st["prods"]))
             vp, tp = pools[i % len(pools)]
